@@ -1,7 +1,7 @@
 (* C10 — the three behaviours that were repaired in /repo (commits 50bd78c, 7e46066, 480fedc), kept
    as _v0 definitions with their refutations (witnesses replayed on the real code by hC10 in the
    regression classes time-far-future, oversize-tail-exact, estime-long-fraction). *)
-From C10 Require Import Model Spec.
+From C10 Require Import Model ModelSeq Spec.
 
 (* ---- documentDelayed with `-docDelay > futureDrift` *)
 Open Scope Z_scope.
@@ -122,4 +122,29 @@ Definition parse_es_v0 (t : list N) : option Z :=
 Definition v0_es : list N := [50; 48; 50; 54; 45; 48; 57; 45; 50; 53; 32; 49; 50; 58; 48; 48; 58; 51; 48; 46; 48; 57; 57; 57; 57; 57; 57; 57; 57; 57]%N.
 Example estime_v0_refuted :
   parse_es_v0 v0_es = Some 1790337630999999999%Z /\ parse_es v0_es = Some 1790337630099999999%Z.
+Proof. split; vm_compute; reflexivity. Qed.
+
+(* ---- an extra Put of the compressor on the `total == 0` path (seeded change, phase 3): after one
+   accepted request without surviving documents two requests in flight hold the same compressor *)
+Example pool_v0_refuted :
+  map snd (held (prun puts_v0 [Start 0 0; Finish 0 KEmpty; Start 1 0; Start 2 0])) = [0; 0].
+Proof. vm_compute. reflexivity. Qed.
+
+(* ---- a pooled object that is not re-initialised leaks one request into the next.
+   body = {"index":{}}\n{"a":1}\n ; previous request left 9 bytes in the docs buffer / had read 5 action lines *)
+Definition seq_body : list N := [123;34;105;110;100;101;120;34;58;123;125;125;10;123;34;97;34;58;49;125;10]%N.
+Example leak_docs_reset_refuted :
+  let p := {| p_counter := 0; p_reader_left := []; p_docs_buf := [1;0;0;0;120]%N |} in
+  let rs := {| r_counter := true; r_reader := true; r_docs := false |} in
+  snd (serve rs false 32 (fun _ => Some Object) p seq_body)
+    <> snd (serve rs false 32 (fun _ => Some Object) fresh seq_body).
+Proof. vm_compute. congruence. Qed.
+
+Example leak_counter_reset_refuted :
+  let p := {| p_counter := 5; p_reader_left := []; p_docs_buf := [] |} in
+  let rs := {| r_counter := false; r_reader := true; r_docs := true |} in
+  (* junk\n{"a":1}\n : the protocol check of the first five action lines is skipped *)
+  let body := [106;117;110;107;10;123;34;97;34;58;49;125;10]%N in
+  fst (serve rs false 32 (fun _ => Some Object) p body) = Accepted [[123;34;97;34;58;49;125]%N] /\
+  fst (serve rs false 32 (fun _ => Some Object) fresh body) = Rejected.
 Proof. split; vm_compute; reflexivity. Qed.
